@@ -17,7 +17,9 @@ import (
 	"strconv"
 	"strings"
 	"sync"
+	"syscall"
 	"testing"
+	"time"
 )
 
 // TB is what rapid.T and testing.T have in common and what the reporters need.
@@ -449,3 +451,39 @@ func EnvInt(name string, def int) int {
 
 // ReplayPath returns the replay file requested by the driver ("" if none).
 func ReplayPath() string { return os.Getenv("VERIF_REPLAY") }
+
+// Watch guards one deterministic case against a call of the code under test that never returns while burning
+// CPU (a livelock cannot be observed from inside the case). It measures process CPU time, not wall time, so a
+// stalled or overloaded machine cannot trigger it; cases of the checks that use it cost milliseconds, the limit
+// is tens of seconds. When it fires the violation is put on record (sig "<prefix>:hang") and the process exits,
+// because nothing else can be run to completion in it. The returned function stops the watch.
+func (s *Stats) Watch(test, sigPrefix string, c any, cpuLimit time.Duration) (stop func()) {
+	done := make(chan struct{})
+	start := cpuTime()
+	go func() {
+		tk := time.NewTicker(500 * time.Millisecond)
+		defer tk.Stop()
+		for {
+			select {
+			case <-done:
+				return
+			case <-tk.C:
+				if used := cpuTime() - start; used > cpuLimit {
+					v := V(sigPrefix+":hang", "the case has consumed %v of CPU time without completing (a call of the code under test spins and never returns)", used.Round(time.Second))
+					s.Record(test, c, v)
+					fmt.Printf("VERIF-VIOLATION property=%s test=%s sig=%s :: %s\n", s.Property, test, v.Sig, v.Msg)
+					os.Exit(3)
+				}
+			}
+		}
+	}()
+	return func() { close(done) }
+}
+
+func cpuTime() time.Duration {
+	var ru syscall.Rusage
+	if syscall.Getrusage(syscall.RUSAGE_SELF, &ru) != nil {
+		return 0
+	}
+	return time.Duration(ru.Utime.Nano() + ru.Stime.Nano())
+}
